@@ -125,19 +125,34 @@ func genC18(dir, tier string, seed int64) {
 	cw.close()
 
 	// ---- unknown operator types through the REAL registry ----
-	unk := goOnlyResult{Stream: "C18_unknown_operator", Rule: "real graphs x -> Abs -> <type> -> Abs through opset13.GetOperator: for every unregistered type string (case/affix perturbations of registered names, ONNX operators that are not implemented, odd strings) Run must fail with errors.Is(err, ops.ErrUnsupportedOperator) and return no outputs; the same graph with a registered unary type must succeed", Violations: []string{}}
+	unk := goOnlyResult{Stream: "C18_unknown_operator", Rule: "real graphs x -> Abs -> <type> -> Abs through opset13.GetOperator (the node of that type at each of the three positions on the path to the output, on a side branch whose result is never read -- first or last in the node list -- and as a node without outputs): for every unregistered type string (case/affix perturbations of registered names, ONNX operators that are not implemented, odd strings) Run must fail with errors.Is(err, ops.ErrUnsupportedOperator) and return no outputs; the same graph with a registered unary type must succeed", Violations: []string{}}
 	names := []string{"abs", "ABS", "Abs ", " Abs", "Abs1", "Ab", "ai.onnx.Abs", "", "Pad", "Gelu", "MaxPool", "Identity", "Exp", "Neg", "LeakyRelu", "Erf", "Softplus", "relu", "Relu6", "Tanhh", "nil", "13", "Sigmoid\x00", "Cosine"}
 	for _, tname := range append(names, "Relu", "Tanh", "Sigmoid") {
-		for pos := 0; pos < 3; pos++ {
+		for pos := 0; pos < 6; pos++ {
+			if pos == 5 && (tname == "Relu" || tname == "Tanh" || tname == "Sigmoid") {
+				continue // a registered operator that yields one result cannot be a node without outputs
+			}
 			unk.N++
 			ts := []string{"Abs", "Abs", "Abs"}
-			ts[pos] = tname
+			if pos < 3 {
+				ts[pos] = tname
+			}
 			vi := func(n string) *onnx.ValueInfoProto {
 				return &onnx.ValueInfoProto{Name: n, Type: &onnx.TypeProto{Value: &onnx.TypeProto_TensorType{TensorType: &onnx.TypeProto_Tensor{ElemType: 1,
 					Shape: &onnx.TensorShapeProto{Dim: []*onnx.TensorShapeProto_Dimension{{Value: &onnx.TensorShapeProto_Dimension_DimValue{DimValue: 3}}}}}}}}
 			}
 			g := &onnx.GraphProto{Input: []*onnx.ValueInfoProto{vi("x")}, Output: []*onnx.ValueInfoProto{vi("y")},
 				Node: []*onnx.NodeProto{{OpType: ts[0], Input: []string{"x"}, Output: []string{"a"}}, {OpType: ts[1], Input: []string{"a"}, Output: []string{"b"}}, {OpType: ts[2], Input: []string{"b"}, Output: []string{"y"}}}}
+			// positions 3..5: the node of that type is NOT on the path to the declared output: a side
+			// branch whose result nobody reads (first or last in the node list), or a node without outputs
+			switch pos {
+			case 3:
+				g.Node = append([]*onnx.NodeProto{{OpType: tname, Input: []string{"x"}, Output: []string{"unused"}}}, g.Node...)
+			case 4:
+				g.Node = append(g.Node, &onnx.NodeProto{OpType: tname, Input: []string{"a"}, Output: []string{"unused"}})
+			case 5:
+				g.Node = append(g.Node[:1], append([]*onnx.NodeProto{{OpType: tname, Input: []string{"a"}}}, g.Node[1:]...)...)
+			}
 			b, _ := proto.Marshal(&onnx.ModelProto{OpsetImport: []*onnx.OperatorSetIdProto{{Version: 13}}, Graph: g})
 			func() {
 				defer func() {
